@@ -14,7 +14,8 @@ Shape A (product-space enumeration), two sub-spaces, both enumerated completely:
 On every case the real functions are called:  get_kmers(w), get_minimizers(k, w) for EVERY k <= w,
 match_string (patterns of length w: first and last in-row window, first window of the concatenated text that
 straddles a row boundary, a constant pattern), get_motif_scores (two PWMs of width w, one with -inf cells),
-count_kmers (flattened and per row), KmerEncoding.to_string / encode.
+count_kmers (flattened and per row), KmerEncoding.to_string / encode.  get_motif_scores is in addition driven as a
+short history on ONE PWM object (rows ; reversed rows of the same total length ; rows again; first result re-observed).
 
 Oracle (models/windows.py): per row, the windows row[i:i+w]; none for rows shorter than w; code = little-endian
 base-|A| number; to_string(code) == window text; minimizer = min of the k-mer codes in the window; match =
@@ -64,7 +65,8 @@ MANIFEST_TEXT = ('Exhaustive enumeration of ragged sequence collections against 
                  '3 rows from {0,w-1,w,w+1} for the cyclic/quadratic fills (thorough: 3 rows from the full set for all fills, 4 rows from {0,w-1,w,w+1}) x ACGT / ACGTN / '
                  'amino acids x letter fills {cyclic, all-first, all-last, quadratic} x input {freshly encoded, sliced '
                  'non-contiguous view, ASCII text}. Functions on every case: get_kmers, get_minimizers for EVERY k <= w, '
-                 'match_string (in-row, boundary-straddling and constant patterns), get_motif_scores (finite and -inf PWM), '
+                 'match_string (in-row, boundary-straddling and constant patterns), get_motif_scores (finite and -inf PWM; also a '
+                 '3-call history on one PWM object with the first result re-observed afterwards), '
                  'count_kmers (flat and per row), KmerEncoding.to_string/encode. Every value is compared with the definition on '
                  'the row alone (window count per row, none for short rows, little-endian code, rendered text, min, match, score, '
                  'counts) and every multi-row result with the result of the same call on each row alone.')
@@ -524,8 +526,50 @@ def run_unit(res, st, alpha_name, rows, w, rep, arr, unit):
         return
     if f == 'get_kmers':
         _render_clauses(res, st, alpha_name, rows, w, result, obs, case, feats)
+    if f == 'get_motif_scores':
+        if not _reuse_clause(res, alpha_name, rows, w, rep, arr, unit, exp, case, feats):
+            return
     if len(rows) > 1:
         _differential(res, st, alpha_name, rows, w, unit, obs, case, feats)
+
+
+def _reuse_clause(res, alpha_name, rows, w, rep, arr, unit, exp, case, feats):
+    """A PWM is a value a user builds once and scores many collections with.  History on ONE PWM object:
+    score(rows) ; score(rows') ; score(rows) where rows' has the same number of letters (rows and letters reversed);
+    every result equals the definition, and the FIRST result, kept alive and observed again after the later calls,
+    still holds its values (no scratch shared between calls)."""
+    import bionumpy as bnp
+    from bionumpy.sequence.position_weight_matrix import PWM
+    alphabet = ALPHABETS[alpha_name]
+    matrix = pwm_matrix(unit['pwm'], len(alphabet), w)
+    rows2 = tuple(r[::-1] for r in rows[::-1])
+    feats = dict(feats, history='same-pwm-object')
+    case = dict(case, history=['rows', 'reversed', 'rows'])
+    try:
+        pwm = PWM(np.array(matrix), alphabet)
+        arr2 = build_input(alpha_name, rows2, rep)
+        kept = []
+        for step, (a, r) in enumerate(((arr, rows), (arr2, rows2), (arr, rows))):
+            res.transitions += 1
+            out = bnp.get_motif_scores(a, pwm)
+            kept.append(out)
+            got = observe_unit(unit, out)
+            want = exp if r is rows else M.motif_scores(r, matrix, alphabet)
+            if got != want:
+                res.fail('motif-score-on-reused-pwm', dict(case, step=step), feats, expected=want, observed=got)
+                return False
+        res.transitions += 1
+        again = observe_unit(unit, kept[0])
+        if again != exp:
+            res.fail('earlier-result-changed-by-later-call', case, feats, expected=exp, observed=again)
+            return False
+    except observe.ObserverError:
+        raise
+    except Exception as e:
+        res.fail('call-raises', case, feats, expected='a result on every call of the history',
+                 observed='%s: %s' % (type(e).__name__, str(e)[:200]), tb=tb_string(e))
+        return False
+    return True
 
 
 def _nonzero(counts):
